@@ -1259,10 +1259,13 @@ package query
 //@   trusted assumed: constructor of the dependency (go-text/csv): stores its arguments
 //@   ensures result.Contents == contents && result.Quote == quote
 //@   modifies nothing
+//@ ghost var csvRecordsWritten int
+//@ spec func fieldText(v value.Primary, sci bool) string
 //@ func (*go-text/csv.Writer).Write
-//@   trusted assumed from the dependency's source (go-text v1.6.0 csv/writer.go): a field is enclosed iff Quote is set or it contains the delimiter or a quotation mark
+//@   trusted assumed from the dependency's source (go-text v1.6.0 csv/writer.go): a field is enclosed iff Quote is set or it contains the delimiter or a quotation mark; ghost: counts the records handed to the writer
 //@   requires [line-breaks-are-enclosed] lineBreaksEnclosed(record)
-//@   modifies nothing
+//@   ensures csvRecordsWritten == old(csvRecordsWritten) + 1
+//@   modifies csvRecordsWritten
 //@ func (*go-text/csv.Writer).Flush
 //@   trusted assumed: flushes the buffered writer
 //@   modifies nothing
@@ -1271,16 +1274,26 @@ package query
 //@   ensures result1 == nil ==> result0 != nil && fresh(result0)
 //@   modifies fresh
 //@ func ConvertFieldContents
-//@   trusted assumed: renders a value as text; writes nothing
+//@   trusted assumed: renders a value as text (a function of the value and the notation flag); writes nothing
+//@   ensures !forTextTable ==> result0 == fieldText(val, useScientificNotation)
 //@   modifies nothing
+// C02 / C01: what reaches the CSV writer is the table: the header (unless suppressed) and then record k as the k-th
+// record, field j holding the text of cell j; the function reports success only if every record was handed over (a
+// cancellation noticed half-way is an error, never a shorter table: fix below).
 //@ func encodeCSV
-//@   property C02
-//@   requires view != nil
-//@   loop 1 invariant lineBreaksEnclosed(fields) && len(fields) == len(view.Header)
+//@   property C02 C01
+//@   requires view != nil && forall(k, 0, len(view.RecordSet), len(view.RecordSet[k]) == len(view.Header) && forall(c, 0, len(view.Header), len(view.RecordSet[k][c]) >= 1))
+//@   ensures [success-means-header-and-every-record-written] result == nil ==> csvRecordsWritten == old(csvRecordsWritten) + len(view.RecordSet) + ite(options.WithoutHeader, 0, 1)
+//@   assert after call (*go-text/csv.Writer).Write#1: [header-is-the-column-names] csvRecordsWritten == old(csvRecordsWritten) + 1 && forall(c, 0, len(view.Header), fields[c].Contents == view.Header[c].Column)
+//@   assert after call (*go-text/csv.Writer).Write#2: [record-k-is-written-kth-cell-by-cell] csvRecordsWritten == old(csvRecordsWritten) + ite(options.WithoutHeader, 0, 1) + i + 1 && forall(c, 0, len(view.Header), fields[c].Contents == fieldText(view.RecordSet[i][c][0], options.ScientificNotation))
+//@   loop 1 invariant lineBreaksEnclosed(fields) && len(fields) == len(view.Header) && csvRecordsWritten == old(csvRecordsWritten)
+//@   loop 1 invariant 0 <= $i && $i <= len(view.Header) && forall(c, 0, $i, fields[c].Contents == view.Header[c].Column)
 //@   loop 1 modifies fields[*]
-//@   loop 2 invariant lineBreaksEnclosed(fields) && len(fields) == len(view.Header)
-//@   loop 2 modifies fields[*]
-//@   loop 3 invariant lineBreaksEnclosed(fields) && len(fields) == len(view.Header)
+//@   loop 2 invariant lineBreaksEnclosed(fields) && len(fields) == len(view.Header) && err@1 == nil
+//@   loop 2 invariant 0 <= $i && $i <= len(view.RecordSet) && csvRecordsWritten == old(csvRecordsWritten) + ite(options.WithoutHeader, 0, 1) + $i
+//@   loop 2 modifies fields[*], csvRecordsWritten
+//@   loop 3 invariant lineBreaksEnclosed(fields) && len(fields) == len(view.Header) && 0 <= i && i < len(view.RecordSet)
+//@   loop 3 invariant 0 <= $i && $i <= len(view.RecordSet[i]) && forall(c, 0, $i, fields[c].Contents == fieldText(view.RecordSet[i][c][0], options.ScientificNotation))
 //@   loop 3 modifies fields[*]
 
 // ---------------------------------------------------------------------------------------------
